@@ -86,15 +86,20 @@ def check_iterbudget(facts):
         return r
     b = facts.body(fn)
     names = {b.local_name(l): l for l in range(1, b.argc + 1)}
+    min_name, max_name = "min", "max"
     if "min" not in names or "max" not in names:
-        r.error("run_scm_loop no longer has parameters named min and max")
-        return r
+        # renamed parameters: the two usize parameters, in declaration order (min before max, as in every other loop helper)
+        us = [l for l in range(1, b.argc + 1) if b.local_ty(l) == "usize"]
+        if len(us) != 2:
+            r.error("run_scm_loop: cannot identify the min/max iteration-count parameters")
+            return r
+        min_name, max_name = b.local_name(us[0]), b.local_name(us[1])
     try:
         paths = symex.SymEx(b).run()
     except symex.Unsupported as e:
         r.fail("%s budgets" % fn, "cannot summarise run_scm_loop (%s)" % e, facts.loc(fn))
         return r
-    MIN, MAX = ("init", "min"), ("init", "max")
+    MIN, MAX = ("init", min_name), ("init", max_name)
     n = 0
     bad = None
     for p in paths:
@@ -119,7 +124,7 @@ def check_iterbudget(facts):
         gs = symex.cguards(p)
         if symex.lin(total) == symex.lin(MAX):
             continue
-        if symex.lin(total) == symex.lin(MIN) and ("min < max", False) in gs:
+        if symex.lin(total) == symex.lin(MIN) and ("%s < %s" % (min_name, max_name), False) in gs:
             continue
         bad = "on a path the single-char loop may run %s iterations in total instead of `max` (with_scm_loop_impl(.., %s, %s)%s)" % (
             symex.show(total), symex.show(first[3]), symex.show(first[4]),
